@@ -357,12 +357,8 @@ func (in *Interp) runPar(fns []Value) {
 	for i, f := range fns {
 		in.newThread(fmt.Sprintf("par%d", i), f, nil)
 	}
-	// previously parked goroutines become schedulable too
-	for _, t := range in.threads {
-		if t.parked {
-			t.parked = false
-		}
-	}
+	// goroutines started before the parallel section (e.g. periodicCleanUp waiting on a ticker that the manual
+	// clock never fires) stay parked: a legal schedule, and they never finish by design
 	_ = first
 	allDone := func() bool {
 		for _, t := range in.threads {
